@@ -8,7 +8,7 @@ from concurrent.futures import ThreadPoolExecutor
 VERIF = os.path.dirname(os.path.dirname(os.path.dirname(os.path.abspath(__file__))))
 REPO = os.environ.get('BT_REPO', '/repo')
 BTFACTS = os.path.join(VERIF, 'tools', 'btfacts')
-CACHE = os.path.join(VERIF, '.cache')
+CACHE = os.environ.get('BT_CACHE') or os.path.join(VERIF, '.cache')
 
 BASE_INC = ['-I' + REPO, '-I' + REPO + '/bluetoe/utility/include', '-I' + REPO + '/bluetoe/link_layer/include',
             '-I' + REPO + '/bluetoe/sm/include', '-I' + REPO + '/bluetoe/hci/include',
